@@ -181,8 +181,16 @@ struct Spec {
     origin: Option<u8>,
     /// AS_PATH shape index, see `path_segments`
     path: u8,
-    /// stored next hop: 0 = v4, 1 = v6 (whole case is IPv6-flavoured), 2 = none
+    /// stored next hop / session kind:
+    /// 0 = V4 on an IPv4 session, 2 = none on an IPv4 session,
+    /// 1 = V6, 3 = V6LinkLocal(global, link-local), 6 = none -- IPv6 family on an IPv6 session,
+    /// 4 = V6, 5 = V6LinkLocal -- IPv4 family with an IPv6 next hop (RFC 8950) on an IPv6 session
     nh: u8,
+    /// which global address (pool index) the stored next hop has
+    nh_g: u8,
+    /// which link-local half (pool index) a V6LinkLocal stored next hop has -- varies
+    /// independently of `nh_g`
+    nh_ll: u8,
     med: Option<u32>,
     lp: Option<u32>,
     originator: Option<u32>,
@@ -366,8 +374,48 @@ struct Env {
     policy_addr: IpAddr,
 }
 
+const N_NH_KINDS: u8 = 7;
+const NH_V4_POOL: [Ipv4Addr; 3] = [
+    Ipv4Addr::new(192, 0, 2, 55),
+    Ipv4Addr::new(192, 0, 2, 56),
+    Ipv4Addr::new(192, 0, 2, 57),
+];
+
+fn nh_global6(i: u8) -> Ipv6Addr {
+    if i % 2 == 0 {
+        "2001:db8:aaaa::1".parse().unwrap()
+    } else {
+        "2001:db8:aaaa::2".parse().unwrap()
+    }
+}
+
+fn nh_linklocal(i: u8) -> Ipv6Addr {
+    if i % 2 == 0 {
+        "fe80::a".parse().unwrap()
+    } else {
+        "fe80::b".parse().unwrap()
+    }
+}
+
+/// the session runs over IPv6 (local address v6, maybe a link-local address)
+fn is_v6_session(nh: u8) -> bool {
+    matches!(nh, 1 | 3 | 4 | 5 | 6)
+}
+
+fn nh_kind_name(nh: u8) -> &'static str {
+    match nh {
+        0 => "v4",
+        1 => "v6",
+        2 => "none-v4-session",
+        3 => "v6-linklocal",
+        4 => "v4-family-v6-nexthop",
+        5 => "v4-family-v6-linklocal-nexthop",
+        _ => "none-v6-session",
+    }
+}
+
 fn make_env(cell: &Cell, s: &Spec) -> Env {
-    let v6 = s.nh == 1;
+    let v6 = is_v6_session(s.nh);
     let ctx_local_asn = if cell.confed
         && s.ctx_asn_confed
         && matches!(cell.dst, PeerRole::Ebgp | PeerRole::RsClient)
@@ -376,17 +424,24 @@ fn make_env(cell: &Cell, s: &Spec) -> Env {
     } else {
         LOCAL_AS
     };
+    let unspec = s.nh_unspec && cell.src == Src::Local;
     if v6 {
         let src_addr: IpAddr = "2001:db8::2".parse().unwrap();
         let other: IpAddr = "2001:db8::3".parse().unwrap();
-        let stored = if s.nh_unspec && cell.src == Src::Local {
-            bgp::Nexthop::V6(Ipv6Addr::UNSPECIFIED)
-        } else {
-            bgp::Nexthop::V6("2001:db8:aaaa::1".parse().unwrap())
+        let global = if unspec { Ipv6Addr::UNSPECIFIED } else { nh_global6(s.nh_g) };
+        let stored = match s.nh {
+            1 | 4 => Some(bgp::Nexthop::V6(global)),
+            3 | 5 => Some(bgp::Nexthop::V6LinkLocal(global, nh_linklocal(s.nh_ll))),
+            _ => None,
         };
+        let v4_family = matches!(s.nh, 4 | 5);
         Env {
-            family: Family::IPV6,
-            net: "2001:db8:1::/48".parse().unwrap(),
+            family: if v4_family { Family::IPV4 } else { Family::IPV6 },
+            net: if v4_family {
+                "10.1.0.0/16".parse().unwrap()
+            } else {
+                "2001:db8:1::/48".parse().unwrap()
+            },
             local_addr: "2001:db8::1".parse().unwrap(),
             link_addr: if s.link_local {
                 Some("fe80::1".parse().unwrap())
@@ -396,7 +451,7 @@ fn make_env(cell: &Cell, s: &Spec) -> Env {
             src_addr,
             recv_addr: if cell.echo { src_addr } else { other },
             decoy_addr: "2001:db8::9".parse().unwrap(),
-            stored_nh: Some(stored),
+            stored_nh: stored,
             ctx_local_asn,
             policy_addr: "2001:db8:ffff::77".parse().unwrap(),
         }
@@ -405,10 +460,10 @@ fn make_env(cell: &Cell, s: &Spec) -> Env {
         let other: IpAddr = "10.0.0.3".parse().unwrap();
         let stored = if s.nh == 2 {
             None
-        } else if s.nh_unspec && cell.src == Src::Local {
+        } else if unspec {
             Some(bgp::Nexthop::V4(Ipv4Addr::UNSPECIFIED))
         } else {
-            Some(bgp::Nexthop::V4(Ipv4Addr::new(192, 0, 2, 55)))
+            Some(bgp::Nexthop::V4(NH_V4_POOL[(s.nh_g % 3) as usize]))
         };
         Env {
             family: Family::IPV4,
@@ -422,6 +477,17 @@ fn make_env(cell: &Cell, s: &Spec) -> Env {
             ctx_local_asn,
             policy_addr: "203.0.113.77".parse().unwrap(),
         }
+    }
+}
+
+/// "Next hop self" for a session: the local address; on an IPv6 session whose link
+/// has a link-local address (`link_addr`, read as "the peer shares the link") the
+/// global + link-local form of RFC 2545 section 3, otherwise the global address alone.
+fn self_nexthop(env: &Env) -> bgp::Nexthop {
+    match (env.local_addr, env.link_addr) {
+        (IpAddr::V4(a), _) => bgp::Nexthop::V4(a),
+        (IpAddr::V6(a), Some(ll)) => bgp::Nexthop::V6LinkLocal(a, ll),
+        (IpAddr::V6(a), None) => bgp::Nexthop::V6(a),
     }
 }
 
@@ -613,6 +679,8 @@ struct ExpSend {
     nexthop: ExpNh,
     /// true when a policy next-hop action decided `nexthop`
     nh_by_policy: bool,
+    /// true when `nexthop` is "next hop self" (full form, incl. the link-local half)
+    nh_self: bool,
     reflected: bool,
     unjudged: Vec<&'static str>,
 }
@@ -698,6 +766,17 @@ fn expected_export(cell: &Cell, s: &Spec, env: &Env) -> Expected {
         _ => None,
     };
 
+    if matches!(s.policy, 1..=3) && env.local_addr.is_ipv6() {
+        // set-next-hop actions are judged on the address they name; whether a
+        // link-local half accompanies it is the policy engine's business (C14)
+        unjudged.push("link-local-half-under-policy-nexthop-action");
+    }
+    if matches!(cell.dst, PeerRole::RsClient | PeerRole::ConfedEbgp)
+        && matches!(env.stored_nh, Some(bgp::Nexthop::V6LinkLocal(..)))
+        && s.policy != 4
+    {
+        unjudged.push("link-local-nexthop-towards-rs-client-or-confed-ebgp");
+    }
     let mut e = ExpSend {
         path: Exp::Any,
         origin,
@@ -710,6 +789,7 @@ fn expected_export(cell: &Cell, s: &Spec, env: &Env) -> Expected {
         opaque_t: s.opq_t != 0,
         nexthop: ExpNh::Any,
         nh_by_policy: policy_nh.is_some(),
+        nh_self: false,
         reflected: false,
         unjudged: Vec::new(),
     };
@@ -751,7 +831,11 @@ fn expected_export(cell: &Cell, s: &Spec, env: &Env) -> Expected {
                         unjudged.push("ebgp-nexthop-of-local-route-with-explicit-nexthop");
                         ExpNh::Any
                     } else {
-                        ExpNh::Addr(env.local_addr)
+                        // "the next hop is self": the whole next hop, i.e. on an IPv6
+                        // session also the right link-local half (RFC 2545 s.3) and none
+                        // of the stored next hop's
+                        e.nh_self = true;
+                        ExpNh::Same(self_nexthop(env))
                     }
                 }
             };
@@ -1304,6 +1388,7 @@ fn judge(
         }
         ExpNh::Same(n) => {
             if nh != Some(*n) {
+                let global_ok = nh.map(|x| x.addr()) == Some(n.addr());
                 if e.nh_by_policy {
                     out.push((
                         "policy-nexthop",
@@ -1315,14 +1400,32 @@ fn judge(
                             n
                         ),
                     ));
-                } else {
+                } else if e.nh_self {
+                    let fact = if nh.is_none() {
+                        "missing"
+                    } else if !global_ok {
+                        "not-self"
+                    } else if matches!(n, bgp::Nexthop::V6LinkLocal(..)) {
+                        "self-link-local-half-wrong-or-missing"
+                    } else {
+                        "self-with-foreign-link-local-half"
+                    };
                     out.push((
                         "nexthop",
-                        if nh.is_none() {
-                            "missing".into()
-                        } else {
-                            "changed".into()
-                        },
+                        fact.into(),
+                        format!("next hop {:?}, expected self ({:?})", nh, n),
+                    ));
+                } else {
+                    let fact = if nh.is_none() {
+                        "missing"
+                    } else if global_ok {
+                        "link-local-half-changed"
+                    } else {
+                        "changed"
+                    };
+                    out.push((
+                        "nexthop",
+                        fact.into(),
                         format!(
                             "next hop {:?}, expected the stored next hop {:?} untouched",
                             nh, n
@@ -1469,7 +1572,7 @@ fn run_case_with(
         Some((_, c)) => c,
         None => cell.cl.id(),
     };
-    let policy = if s.nh == 1 {
+    let policy = if is_v6_session(s.nh) {
         ctx.pol.v6[s.policy as usize].clone()
     } else {
         ctx.pol.v4[s.policy as usize].clone()
@@ -1482,6 +1585,10 @@ fn run_case_with(
     } else {
         "branch:non-add-path"
     });
+    ctx.rep.count(&format!("nh-kind:{}", nh_kind_name(s.nh)));
+    if env.link_addr.is_some() {
+        ctx.rep.count("receiver-with-link-addr");
+    }
     let mut rec = Rec::default();
     let res = guard(|| {
         let mut em = if s.addpath {
@@ -1586,11 +1693,32 @@ fn run_case_with(
             if e.nh_by_policy {
                 ctx.rep.count("clause:policy-nexthop");
             }
-            if matches!(e.nexthop, ExpNh::Addr(_)) && !e.nh_by_policy {
+            if e.nh_self {
                 ctx.rep.count("clause:nexthop-self");
+                match e.nexthop {
+                    ExpNh::Same(bgp::Nexthop::V6LinkLocal(..)) => {
+                        ctx.rep.count("clause:nexthop-self-global+link-local")
+                    }
+                    ExpNh::Same(bgp::Nexthop::V6(_)) => {
+                        ctx.rep.count("clause:nexthop-self-v6-global-only")
+                    }
+                    _ => {}
+                }
+                if matches!(env.stored_nh, Some(bgp::Nexthop::V6LinkLocal(..))) {
+                    ctx.rep.count("clause:nexthop-self-over-stored-link-local");
+                }
             }
-            if matches!(e.nexthop, ExpNh::Same(_)) && !e.nh_by_policy {
+            if matches!(e.nexthop, ExpNh::Same(_)) && !e.nh_by_policy && !e.nh_self {
                 ctx.rep.count("clause:nexthop-untouched");
+                if matches!(e.nexthop, ExpNh::Same(bgp::Nexthop::V6LinkLocal(..))) {
+                    ctx.rep.count("clause:nexthop-untouched-link-local");
+                }
+            }
+            if e.nh_by_policy && matches!(e.nexthop, ExpNh::Same(bgp::Nexthop::V6LinkLocal(..))) {
+                ctx.rep.count("clause:policy-unchanged-link-local");
+            }
+            if matches!(s.nh, 4 | 5) {
+                ctx.rep.count("clause:extended-nexthop-v4-family");
             }
             if s.llgr && cell.src.is_peer() {
                 ctx.rep.count("clause:llgr");
@@ -1632,6 +1760,8 @@ fn base_spec() -> Spec {
         origin: Some(0),
         path: 2,
         nh: 0,
+        nh_g: 0,
+        nh_ll: 0,
         med: None,
         lp: None,
         originator: None,
@@ -1656,6 +1786,8 @@ fn full_spec() -> Spec {
         origin: Some(1),
         path: 5,
         nh: 0,
+        nh_g: 0,
+        nh_ll: 0,
         med: Some(50),
         lp: Some(200),
         originator: Some(u32::from(Ipv4Addr::new(10, 9, 9, 9))),
@@ -1689,16 +1821,26 @@ fn covering_specs() -> Vec<Spec> {
             s.path = p;
             variants.push(s);
         }
-        for nh in 0..3u8 {
+        for nh in 0..N_NH_KINDS {
             for ll in [false, true] {
-                let mut s = base.clone();
-                s.nh = nh;
-                s.link_local = ll;
-                variants.push(s);
+                for (g, l) in [(0u8, 0u8), (1, 0), (0, 1)] {
+                    if (g, l) != (0, 0) && !matches!(nh, 3 | 5) {
+                        continue;
+                    }
+                    for unspec in [false, true] {
+                        let mut s = base.clone();
+                        s.nh = nh;
+                        s.link_local = ll;
+                        s.nh_g = g;
+                        s.nh_ll = l;
+                        s.nh_unspec = unspec;
+                        variants.push(s);
+                    }
+                }
             }
         }
         for pol in 1..N_POLICIES {
-            for nh in 0..3u8 {
+            for nh in 0..N_NH_KINDS {
                 let mut s = base.clone();
                 s.policy = pol;
                 s.nh = nh;
@@ -1754,7 +1896,7 @@ fn covering_specs() -> Vec<Spec> {
 }
 
 fn random_spec(rng: &mut Rng) -> Spec {
-    let nh = *rng.pick(&[0u8, 0, 1, 2]);
+    let nh = *rng.pick(&[0u8, 0, 1, 2, 3, 3, 4, 5, 5, 6]);
     Spec {
         origin: if rng.chance(9, 10) {
             Some(rng.below(3) as u8)
@@ -1763,6 +1905,8 @@ fn random_spec(rng: &mut Rng) -> Spec {
         },
         path: rng.below(N_SHAPES as u64) as u8,
         nh,
+        nh_g: rng.below(3) as u8,
+        nh_ll: rng.below(2) as u8,
         med: if rng.bool() {
             Some(rng.below(1000) as u32)
         } else {
@@ -2696,6 +2840,19 @@ struct Batch {
     addpath: bool,
     policy: u8,
     ctx_asn_confed: bool,
+    /// 0 = IPv4 session, 1 = IPv6 family on an IPv6 session, 2 = IPv4 family with IPv6
+    /// next hops (RFC 8950) on an IPv6 session
+    flavour: u8,
+    /// the receiver's session has a link-local address (`PeerExportContext.link_addr`)
+    link_local: bool,
+}
+
+fn wire_recv(v6: bool) -> IpAddr {
+    if v6 {
+        "2001:db8::3".parse().unwrap()
+    } else {
+        WIRE_RECV.parse().unwrap()
+    }
 }
 
 type WireKey = (usize, u32);
@@ -2711,7 +2868,8 @@ fn src_index(s: Src) -> u8 {
 
 impl SrcCache {
     fn get(&mut self, cell: &Cell, env: &mut Env, llgr: bool) -> Arc<table::Source> {
-        let recv: IpAddr = WIRE_RECV.parse().unwrap();
+        let v6 = env.local_addr.is_ipv6();
+        let recv: IpAddr = wire_recv(v6);
         env.recv_addr = recv;
         if !cell.src.is_peer() {
             return make_source(cell, env, false);
@@ -2720,7 +2878,12 @@ impl SrcCache {
         env.src_addr = if cell.echo {
             recv
         } else {
-            IpAddr::V4(Ipv4Addr::new(10, 0, 1, idx * 2 + llgr as u8 + 1))
+            let host = idx * 2 + llgr as u8 + 1;
+            if v6 {
+                IpAddr::V6(Ipv6Addr::new(0x2001, 0xdb8, 1, 0, 0, 0, 0, host as u16))
+            } else {
+                IpAddr::V4(Ipv4Addr::new(10, 0, 1, host))
+            }
         };
         let key = (idx, llgr, cell.echo);
         if let Some(s) = self.m.get(&key) {
@@ -2732,11 +2895,6 @@ impl SrcCache {
     }
 }
 
-const WIRE_NH_POOL: [Ipv4Addr; 3] = [
-    Ipv4Addr::new(192, 0, 2, 55),
-    Ipv4Addr::new(192, 0, 2, 56),
-    Ipv4Addr::new(192, 0, 2, 57),
-];
 
 fn gen_wpath(
     rng: &mut Rng,
@@ -2773,12 +2931,17 @@ fn gen_wpath(
         echo,
     };
     spec.llgr = src.is_peer() && rng.chance(1, 6);
-    let nh_pick = rng.below(7);
-    spec.nh = if nh_pick == 6 { 2 } else { 0 };
+    // the stored next hop: full pool of the session flavour -- global address and
+    // link-local half vary independently
+    spec.nh = match b.flavour {
+        0 => *rng.pick(&[0u8, 0, 0, 0, 0, 0, 2]),
+        1 => *rng.pick(&[1u8, 1, 3, 3, 3, 3, 6]),
+        _ => *rng.pick(&[4u8, 4, 5, 5, 5, 5]),
+    };
+    spec.nh_g = if b.flavour == 0 { rng.below(3) as u8 } else { rng.below(2) as u8 };
+    spec.nh_ll = rng.below(2) as u8;
+    spec.link_local = b.link_local;
     let mut env = make_env(&cell, &spec);
-    if spec.nh == 0 && !(spec.nh_unspec && src == Src::Local) {
-        env.stored_nh = Some(bgp::Nexthop::V4(WIRE_NH_POOL[(nh_pick % 3) as usize]));
-    }
     let source = cache.get(&cell, &mut env, spec.llgr);
     let attr = if rng.bool() {
         rep.count("wire:input-same-arc");
@@ -2832,6 +2995,8 @@ fn gen_batch(rng: &mut Rng) -> (Batch, Vec<(Spec, Arc<Vec<packet::Attribute>>)>)
         // none (mostly), nh-unchanged (keeps explicit next hops towards eBGP), MED actions
         policy: *rng.pick(&[0u8, 0, 0, 4, 4, 5, 6]),
         ctx_asn_confed: rng.bool(),
+        flavour: *rng.pick(&[0u8, 0, 1, 1, 1, 2, 2]),
+        link_local: rng.bool(),
     };
     let n_t = rng.range(1, 3) as usize;
     let mut templates = Vec::new();
@@ -2854,10 +3019,14 @@ fn gen_batch(rng: &mut Rng) -> (Batch, Vec<(Spec, Arc<Vec<packet::Attribute>>)>)
     (b, templates)
 }
 
-fn wire_net(i: usize) -> packet::Nlri {
-    format!("10.{}.{}.0/24", 100 + i / 250, i % 250)
-        .parse()
-        .unwrap()
+fn wire_net(i: usize, v6_family: bool) -> packet::Nlri {
+    if v6_family {
+        format!("2001:db8:{:x}::/48", 0x100 + i).parse().unwrap()
+    } else {
+        format!("10.{}.{}.0/24", 100 + i / 250, i % 250)
+            .parse()
+            .unwrap()
+    }
 }
 
 /// Apply drained messages to the receiver's view.  Returns keys that occurred
@@ -3092,6 +3261,9 @@ fn judge_wire_view(
             ));
             if !matches!(e.nexthop, ExpNh::Any) {
                 ctx.rep.count("wire:nexthop-judged");
+                if matches!(e.nexthop, ExpNh::Same(bgp::Nexthop::V6LinkLocal(..))) {
+                    ctx.rep.count("wire:link-local-nexthop-judged");
+                }
             }
             for (clause, fact, text) in judge(&wp.cell, &wp.spec, e, *nh, attrs) {
                 let handed_ok = shadow
@@ -3139,6 +3311,33 @@ fn judge_wire_view(
             ctx.rep.count("wire:attr-set-shared-by-several-prefixes");
         }
     }
+    // content-equal attributes, equal global address, different link-local half:
+    // must stay two groups
+    let mut by_attr_nh: Vec<(&Arc<Vec<packet::Attribute>>, Vec<bgp::Nexthop>)> = Vec::new();
+    for (nh, a) in shadow.values() {
+        let Some(nh) = nh else { continue };
+        match by_attr_nh.iter_mut().find(|x| **x.0 == **a) {
+            Some(x) => {
+                if !x.1.contains(nh) {
+                    x.1.push(*nh);
+                }
+            }
+            None => by_attr_nh.push((a, vec![*nh])),
+        }
+    }
+    for (_, nhs) in &by_attr_nh {
+        let clash = nhs
+            .iter()
+            .any(|x| nhs.iter().any(|y| x != y && x.addr() == y.addr()));
+        if clash {
+            ctx.rep.count("wire:equal-attrs-equal-global-different-link-local");
+        }
+    }
+    for (nh, _) in shadow.values() {
+        if matches!(nh, Some(bgp::Nexthop::V6LinkLocal(..))) {
+            ctx.rep.count("wire:handed-link-local-nexthops");
+        }
+    }
     let mut by_nh: BTreeMap<String, u32> = BTreeMap::new();
     for (nh, a) in shadow.values() {
         let e = by_nh.entry(format!("{:?}", nh)).or_insert(0);
@@ -3159,7 +3358,7 @@ fn judge_wire_view(
 fn run_wire_batch(ctx: &mut Ctx, rng: &mut Rng, use_pending: bool) {
     let sink_name: &'static str = if use_pending { "pending" } else { "grouped" };
     let (b, templates) = gen_batch(rng);
-    let family = Family::IPV4;
+    let family = if b.flavour == 1 { Family::IPV6 } else { Family::IPV4 };
     let n = rng.range(4, 40) as usize;
     let mut cache = SrcCache { m: BTreeMap::new() };
     let mut routes: Vec<WRoute> = Vec::new();
@@ -3173,7 +3372,7 @@ fn run_wire_batch(ctx: &mut Ctx, rng: &mut Rng, use_pending: bool) {
         let paths: Vec<WPath> = (0..npaths)
             .map(|k| gen_wpath(rng, &b, &templates, &mut cache, k + 1, &mut ctx.rep))
             .collect();
-        let net = wire_net(i);
+        let net = wire_net(i, b.flavour == 1);
         index.insert(net.clone(), i);
         routes.push(WRoute {
             net,
@@ -3181,16 +3380,28 @@ fn run_wire_batch(ctx: &mut Ctx, rng: &mut Rng, use_pending: bool) {
             paths,
         });
     }
-    let recv: IpAddr = WIRE_RECV.parse().unwrap();
+    let recv: IpAddr = wire_recv(b.flavour != 0);
     let ctx_local_asn = routes[0].paths[0].env.ctx_local_asn;
     let export_ctx = PeerExportContext {
         role: b.dst,
         local_asn: ctx_local_asn,
-        local_addr: "10.0.0.1".parse().unwrap(),
-        link_addr: None,
+        local_addr: routes[0].paths[0].env.local_addr,
+        link_addr: routes[0].paths[0].env.link_addr,
         confederation_id: if b.confed { CONFED_ID } else { 0 },
     };
-    let policy = ctx.pol.v4[b.policy as usize].clone();
+    let policy = if b.flavour != 0 {
+        ctx.pol.v6[b.policy as usize].clone()
+    } else {
+        ctx.pol.v4[b.policy as usize].clone()
+    };
+    ctx.rep.count(match b.flavour {
+        0 => "wire:session:ipv4",
+        1 => "wire:session:ipv6",
+        _ => "wire:session:ipv4-over-ipv6-nexthop",
+    });
+    if export_ctx.link_addr.is_some() {
+        ctx.rep.count("wire:receiver-with-link-addr");
+    }
     let emax = if b.addpath { 4 } else { 1 };
     let new_em = || {
         if b.addpath {
